@@ -169,6 +169,15 @@ func craftedCatalogue(suite uint16, thorough bool) []crafted {
 	}
 	both("control: honest record", true, msg, sealed(gmref.RecApp, msg, gmref.SealOpt{}))
 	both("empty application-data record", true, nil, sealed(gmref.RecApp, nil, gmref.SealOpt{}))
+	// warning alerts are records like any other: one sequence number each, and the stream goes on
+	both("protected warning alert no_renegotiation, then data", true, nil, sealed(gmref.RecAlert, []byte{1, 100}, gmref.SealOpt{}))
+	both("protected warning alert user_canceled, then data", true, nil, sealed(gmref.RecAlert, []byte{1, 90}, gmref.SealOpt{}))
+	both("two protected warning alerts, then data", true, nil, func(q *gmref.Peer) error {
+		if err := q.WriteRaw(gmref.RecAlert, q.Seal(gmref.RecAlert, []byte{1, 100}, gmref.SealOpt{})); err != nil {
+			return err
+		}
+		return q.WriteRaw(gmref.RecAlert, q.Seal(gmref.RecAlert, []byte{1, 90}, gmref.SealOpt{}))
+	})
 	big := pu.Msg(7, 16384)
 	both("payload of 16384 bytes", true, big, sealed(gmref.RecApp, big, gmref.SealOpt{}))
 	both("payload of 16385 bytes", false, nil, sealed(gmref.RecApp, pu.Msg(7, 16385), gmref.SealOpt{}))
